@@ -175,7 +175,7 @@ impl TypeChecker {
                         Expr::Ident(name) => {
                             // TODO: lots of nested ifs here, we should refactor this to be more readable.
                             // Check that the variable is mutable
-                            if let Some(id) = self.symbols.lookup_local(name) {
+                            if let Some(id) = self.symbols.lookup(name) {
                                 if let Some(sym) = self.symbols.get(id) {
                                     if let SymbolKind::Variable(var_info) = &sym.kind {
                                         if !var_info.is_mutable {
@@ -470,6 +470,18 @@ impl TypeChecker {
             self.check_statement(stmt);
         }
         self.symbols.exit_scope();
+
+        for (elif_cond, elif_body) in &if_stmt.elif_branches {
+            let elif_ty = self.check_expr(elif_cond);
+            let is_compatible = self.types_compatible(&elif_ty, &ResolvedType::Bool);
+            ensure_bool_condition(&elif_ty, elif_cond.span, is_compatible, &mut self.errors);
+
+            self.symbols.enter_scope(ScopeKind::Block);
+            for stmt in elif_body {
+                self.check_statement(stmt);
+            }
+            self.symbols.exit_scope();
+        }
 
         if let Some(else_body) = &if_stmt.else_body {
             self.symbols.enter_scope(ScopeKind::Block);
